@@ -383,4 +383,77 @@ theorem cut_positions (l : List Str) (start num : Nat) (hs : start ≤ l.length)
     rw [List.getElem?_append_right (by simp; omega)]
     simp only [List.length_take, Nat.min_eq_left hs, List.getElem?_drop]
     congr 1; omega
+theorem dropLastEmpty_append (l : List Str) (h : l.getLast? = some []) :
+    dropLastEmpty l ++ [[]] = l := by
+  induction l with
+  | nil => simp at h
+  | cons x r ih =>
+    cases r with
+    | nil =>
+      simp only [List.getLast?_singleton, Option.some.injEq] at h
+      subst h; simp [dropLastEmpty]
+    | cons y r' =>
+      rw [dropLastEmpty_cons _ _ (by simp), List.cons_append,
+        ih (by simpa [List.getLast?_cons_cons] using h)]
+
+/-- the last field is empty exactly when the string is empty or ends with the delimiter -/
+theorem fields_last_empty (d : Nat) (s : Str) :
+    (fields d s).getLast? = some [] ↔ (s = [] ∨ s.getLast? = some d) := by
+  induction s with
+  | nil => simp [fields]
+  | cons c t ih =>
+    simp only [fields]
+    split
+    · rename_i hc
+      subst hc
+      obtain ⟨f, fs, hf⟩ := List.exists_cons_of_ne_nil (fields_ne_nil c t)
+      rw [hf, List.getLast?_cons_cons, ← hf, ih]
+      cases t with
+      | nil => simp
+      | cons a r => simp [List.getLast?_cons_cons]
+    · rename_i hc
+      cases hf : fields d t with
+      | nil => exact absurd hf (fields_ne_nil d t)
+      | cons f fs =>
+        simp only [List.headD_cons, List.tail_cons]
+        cases fs with
+        | nil =>
+          have ht : t = f := by have := sjoin_fields d t; rw [hf] at this; exact this.symm
+          have hnd : d ∉ f := fields_no_delim d t f (by rw [hf]; simp)
+          subst ht
+          have : (c :: t).getLast? ≠ some d := by
+            intro h
+            have hm := List.mem_of_getLast? h
+            rcases List.mem_cons.1 hm with e | e
+            · exact hc e.symm
+            · exact hnd e
+          simp [this]
+        | cons g gs =>
+          have htne : t ≠ [] := by
+            intro h; rw [h] at hf; simp [fields] at hf
+          rw [hf] at ih
+          rw [List.getLast?_cons_cons]
+          rw [List.getLast?_cons_cons] at ih
+          rw [ih]
+          obtain ⟨a, r, rfl⟩ := List.exists_cons_of_ne_nil htne
+          simp [List.getLast?_cons_cons]
+
+/-- loop result + the field appended after the loop = all fields (nothing for the empty string) -/
+theorem splitInter_true_trailing (d : Nat) (s : Str) :
+    splitInter true d s ++ trailingField d s = if s = [] then [] else fields d s := by
+  rw [splitInter_true]
+  unfold trailingField
+  by_cases hs : s = []
+  · subst hs; simp [fields, dropLastEmpty]
+  · rw [if_neg hs]
+    split
+    · rename_i hl
+      exact dropLastEmpty_append _ ((fields_last_empty d s).2 (Or.inr hl))
+    · rename_i hl
+      rw [List.append_nil]
+      apply dropLastEmpty_of_last
+      intro h
+      rcases (fields_last_empty d s).1 h with h | h
+      · exact hs h
+      · exact hl h
 end ParsecVerif.Argv
